@@ -16,7 +16,7 @@
 (*   Result(kind, idok)    ExchangeContext returned: kind = udp (bytes of  *)
 (*                         the UDP reply), tcp (bytes of the TCP reply),   *)
 (*                         err, other; idok = the caller's ID was restored *)
-(* Silent: Decide, refused TcpDial, TcpGiveUp, UdpTimeout.                 *)
+(* Silent: Decide, refused TcpDial, TcpGiveUp.                             *)
 (***************************************************************************)
 EXTENDS UdpFallback, IOUtils
 
@@ -41,14 +41,16 @@ Logged ==
     \/ IsEvent("TcpQuery") /\ Ev.same /\ TcpQuery
     \/ IsEvent("TcpReply") /\ TcpAnswer
     \/ IsEvent("TcpClose") /\ TcpFail
-    \/ IsEvent("Result") /\ pc = "done" /\ result = Ev.kind /\ Ev.idok /\ UNCHANGED vars
+    \* errors caused by the harness context ending are filtered out before validation, so an
+    \* error must come from the TCP retry
+    \/ IsEvent("Result") /\ pc = "done" /\ result = Ev.kind /\ Ev.idok /\ (Ev.kind = "err" => tcpDials >= 1)
+         /\ UNCHANGED vars
 
 Silent ==
     /\ l <= Len(Trace) /\ UNCHANGED l
     /\ \/ Decide
        \/ tcpMode = "refuses" /\ TcpDial
        \/ TcpGiveUp
-       \/ UdpTimeout
 
 TraceNext == (Reset \/ Logged \/ Silent) /\ C17Inv'
 TraceSpec == TraceInit /\ [][TraceNext]_tvars
